@@ -989,13 +989,21 @@ func nonZeroAt(at ssa.Instruction, l ssa.Value, depth int) bool {
 				continue
 			}
 			k, ok := constInt(pr[1])
-			if !ok || k != 0 {
+			if !ok || (k != 0 && k != 1) {
 				continue
 			}
+			// normalise to `l op k` holding
+			op := bo.Op
+			if pr[0] != bo.X {
+				op = map[token.Token]token.Token{token.LSS: token.GTR, token.GTR: token.LSS, token.LEQ: token.GEQ, token.GEQ: token.LEQ, token.EQL: token.EQL, token.NEQ: token.NEQ}[op]
+			}
+			if !g.Truth {
+				op = map[token.Token]token.Token{token.LSS: token.GEQ, token.GTR: token.LEQ, token.LEQ: token.GTR, token.GEQ: token.LSS, token.EQL: token.NEQ, token.NEQ: token.EQL}[op]
+			}
 			switch {
-			case bo.Op == token.EQL && !g.Truth, bo.Op == token.NEQ && g.Truth:
+			case k == 0 && (op == token.NEQ || op == token.GTR):
 				return true
-			case bo.Op == token.GTR && g.Truth && pr[0] == bo.X:
+			case k == 1 && op == token.GEQ:
 				return true
 			}
 		}
@@ -1036,13 +1044,21 @@ func nonEmptyGuard(at ssa.Instruction, list ssa.Value) bool {
 				continue
 			}
 			k, ok := constInt(pr[1])
-			if !ok || k != 0 {
+			if !ok || (k != 0 && k != 1) {
 				continue
 			}
+			// normalise to `l op k` holding
+			op := bo.Op
+			if pr[0] != bo.X {
+				op = map[token.Token]token.Token{token.LSS: token.GTR, token.GTR: token.LSS, token.LEQ: token.GEQ, token.GEQ: token.LEQ, token.EQL: token.EQL, token.NEQ: token.NEQ}[op]
+			}
+			if !g.Truth {
+				op = map[token.Token]token.Token{token.LSS: token.GEQ, token.GTR: token.LEQ, token.LEQ: token.GTR, token.GEQ: token.LSS, token.EQL: token.NEQ, token.NEQ: token.EQL}[op]
+			}
 			switch {
-			case bo.Op == token.EQL && !g.Truth, bo.Op == token.NEQ && g.Truth:
+			case k == 0 && (op == token.NEQ || op == token.GTR):
 				return true
-			case bo.Op == token.GTR && g.Truth && pr[0] == bo.X:
+			case k == 1 && op == token.GEQ:
 				return true
 			}
 		}
